@@ -39,6 +39,8 @@ pub struct Model {
     pub allow_dup: bool,
     /// ids of blobs moved to the corrupted directory
     pub quarantined: Vec<usize>,
+    /// blobs init found corrupted and left in the work dir (ignore_corrupted): not served, not counted, their ids stay taken
+    pub ignored: Vec<usize>,
     /// every id that ever named a blob file in the work dir or the corrupted dir
     pub ids_ever: Vec<usize>,
 }
@@ -254,7 +256,7 @@ impl Model {
 
     /// Clean close followed by init (eager) / init_lazy on the same directory.
     pub fn restart(&mut self, lazy: bool) {
-        let had_files = !self.present().is_empty();
+        let had_files = !self.present().is_empty() || !self.ignored.is_empty();
         self.restart_ext(lazy, had_files, 0);
     }
 
@@ -265,7 +267,7 @@ impl Model {
         all.sort();
         self.active = None;
         self.closed = all;
-        let floor = floor.max(self.quarantined.iter().max().map_or(0, |m| m + 1));
+        let floor = floor.max(self.quarantined.iter().max().map_or(0, |m| m + 1)).max(self.ignored.iter().max().map_or(0, |m| m + 1));
         if !dir_had_blob_files {
             // work dir without blob files: a fresh storage is created (also by init_lazy)
             self.next_id = floor;
@@ -291,6 +293,18 @@ impl Model {
             self.active = None;
         }
         self.quarantined.push(id);
+    }
+
+    /// The blob was found corrupted by init and left where it is (ignore_corrupted)
+    pub fn ignore(&mut self, id: usize) {
+        self.blobs.remove(&id);
+        self.closed.retain(|b| *b != id);
+        if self.active == Some(id) {
+            self.active = None;
+        }
+        if !self.ignored.contains(&id) {
+            self.ignored.push(id);
+        }
     }
 
     pub fn records_total(&self) -> usize {
